@@ -533,6 +533,8 @@ pub struct Cluster {
     pub budget: u64,
     pub max_quiet_steps: u64,
     pub max_early_ticks: u32,
+    /// every node binds to 0.0.0.0:<port> and is known to its peers by another (external) address
+    pub bind_differs: bool,
 }
 
 #[derive(Debug, Clone, PartialEq)]
@@ -555,7 +557,7 @@ impl Cluster {
                 g.nodes.push(SimNode { node: None, dbs: None, addr: format!("10.0.0.{}:3014", i + 1), dir, alive: false, process_id: 0, repl_q: VecDeque::new(), sup_q: VecDeque::new(), starts: 0 });
             }
         }
-        Cluster { sim, rng: Rng::new(seed), base_dir, sessions: BTreeMap::new(), budget: 6000, max_quiet_steps: 0, max_early_ticks: 4 }
+        Cluster { sim, rng: Rng::new(seed), base_dir, sessions: BTreeMap::new(), budget: 6000, max_quiet_steps: 0, max_early_ticks: 4, bind_differs: seed % 3 == 2 && std::env::var("VERIF_NO_BIND_VARIANT").is_err() }
     }
 
     pub fn n(&self) -> usize {
@@ -592,6 +594,9 @@ impl Cluster {
         o.real_loop = true;
         o.real_supervisor = true;
         o.load_from_disk = true;
+        if self.bind_differs {
+            o.bind_addr = Some(format!("0.0.0.0:{}", addr.rsplit(':').next().unwrap_or("3014")));
+        }
         let mut node = Node::start(o);
         node.keep_logs = false;
         let dbs = node.dbs.clone();
